@@ -56,6 +56,8 @@ Judge(e, s) ==
              ELSE IF e.out.foreign # 0 THEN "violation:foreign-elements"
              ELSE IF ~(got \subseteq States(K)) THEN "violation:foreign-elements"
              ELSE IF got # exp THEN (IF e.fair = "none" THEN "violation:result" ELSE "violation:not-functional")
+             \* an equal formula given as a freshly built object must give the same set (no state carried by the formula object)
+             ELSE IF Has(e.out, "twin") /\ ToSet(e.out.twin) # got THEN "violation:depends-on-the-history-of-the-formula-object"
              ELSE IF ObjectsIntact(e, s) # "ok" THEN ObjectsIntact(e, s)
              ELSE IF ResOf(e) # res2 THEN "violation:results-changed"
              ELSE "ok"
@@ -69,7 +71,8 @@ Judge(e, s) ==
     IN [v |-> v, s |-> s]
   ELSE IF e.op = "mutate" THEN
     LET old == s.res[e.r]
-        new == CASE e.kind = "clear" -> {}
+        new == CASE Has(e, "noop") -> old        \* the result is an immutable set: nothing can be edited
+                 [] e.kind = "clear" -> {}
                  [] e.kind = "add" -> old \cup {Foreign}
                  [] e.kind = "discard" -> IF old = {} THEN {} ELSE old \ {CHOOSE x \in old : \A y \in old : x <= y}
                  [] e.kind = "swap" -> IF old = {} THEN {} ELSE (old \ {CHOOSE x \in old : \A y \in old : x <= y}) \cup {Foreign}
